@@ -562,6 +562,6 @@ func uniq(in []string) []string {
 func TestHostileRtmpPeer(t *testing.T) {
 	pbt.Run(t, pbt.Spec[Case]{
 		ID: "C04", Name: "hostile-rtmp-peer", Gen: genCase, Run: run, Classify: classify, Isolate: true,
-		Quick: 2500, Thorough: 25000,
+		Quick: 1500, Thorough: 20000,
 	})
 }
